@@ -82,3 +82,44 @@ CORPUS += [
     M("valid-responses-last-only", D, "        return valid_responses\n", "        return valid_responses[-1:]\n"),
     M("n-valid-responses-copied", D, "        return valid_responses\n", "        return list(valid_responses)\n", "S"),
 ]
+# round 11: histories, faults, interleavings - the pre-send drain and the first transmission lie in one atomic section
+CORPUS += [
+    M("drain-before-authenticate", "msmart/lan.py", """        # Authenticate as needed
+        if (isinstance(self._protocol, _LanProtocolV3)
+                and not self._protocol.authenticated):
+            await self.authenticate()
+
+            # Protocol should be authenticated now
+            assert self._protocol.authenticated
+
+        # Encode frame to packet
+        packet = _Packet.encode(self._device_id, data)
+
+        responses = []
+
+        # Read any responses that may have been received sporadically
+        async for resp in self._read_available():
+            responses.append(resp)
+""", """        responses = []
+
+        # Read any responses that may have been received sporadically
+        async for resp in self._read_available():
+            responses.append(resp)
+
+        # Authenticate as needed
+        if (isinstance(self._protocol, _LanProtocolV3)
+                and not self._protocol.authenticated):
+            await self.authenticate()
+
+            # Protocol should be authenticated now
+            assert self._protocol.authenticated
+
+        # Encode frame to packet
+        packet = _Packet.encode(self._device_id, data)
+"""),
+    M("yield-between-drain-and-write", "msmart/lan.py", "        # Send the request and wait for a response\n        while retries > 0:\n            # Send the request",
+      "        await asyncio.sleep(0)\n\n        # Send the request and wait for a response\n        while retries > 0:\n            # Send the request"),
+    M("n-log-between-drain-and-write", "msmart/lan.py", "        # Send the request and wait for a response\n        while retries > 0:\n            # Send the request",
+      "        _LOGGER.debug(\"%d frame(s) were waiting.\", len(responses))\n\n        # Send the request and wait for a response\n        while retries > 0:\n            # Send the request", "S"),
+    M("unsolicited-after-reply", "msmart/lan.py", "        return responses\n\n\nclass Security:", "        return responses[-1:] + responses[:-1]\n\n\nclass Security:"),
+]
